@@ -47,6 +47,7 @@ type env struct {
 	cp    *remedies.CachingPlugin
 	ccfg  sharedConfig.CachingConfig
 	rems  []sharedConfig.CachingConfig
+	trems []sharedConfig.ResponseBasedThrottlingConfig
 	tp    *remedies.ResponseBasedThrottlingPlugin
 	tcfg  sharedConfig.ResponseBasedThrottlingConfig
 	hdr   string
@@ -280,6 +281,44 @@ func (e *env) cfg(w []string) string {
 		e.hdr = "Retry-After"
 		e.clk = detclock.NewManual(t0)
 		e.cp = remedies.NewCachingPlugin(e.clk)
+	case "tshared":
+		for _, name := range []string{"r0", "r1", "r2", "r3"} {
+			spec, ok := proto.KV(w[2:], name)
+			if !ok {
+				continue
+			}
+			f := strings.Split(spec, "/")
+			if len(f) != 3 {
+				return "bad-op"
+			}
+			var c sharedConfig.ResponseBasedThrottlingConfig
+			switch f[0] {
+			case "rel":
+				c.RetryAfterType = sharedConfig.RetryAfterRelativeSeconds
+			case "abs":
+				c.RetryAfterType = sharedConfig.RetryAfterAbsoluteEpoch
+			case "undef":
+				c.RetryAfterType = sharedConfig.RetryAfterUndefined
+			default:
+				return "bad-op"
+			}
+			if st := proto.Dec(f[1]); st != "" {
+				for _, p := range strings.Split(st, ",") {
+					n, err := strconv.ParseUint(p, 10, 31)
+					if err != nil || strings.HasPrefix(p, "+") {
+						return "bad-op"
+					}
+					c.RelevantStatuses = append(c.RelevantStatuses, int(n))
+				}
+			}
+			c.RetryAfterHeader = proto.Dec(f[2])
+			e.trems = append(e.trems, c)
+		}
+		if len(e.trems) == 0 {
+			return "bad-op"
+		}
+		e.clk = detclock.NewManual(t0)
+		e.tp = remedies.NewResponseBasedThrottlingPlugin(e.clk)
 	case "shared":
 		for _, name := range []string{"r0", "r1", "r2", "r3"} {
 			spec, ok := proto.KV(w[2:], name)
@@ -412,7 +451,7 @@ func (e *env) probe() string {
 		c = reflect.ValueOf(e.mc).Elem()
 	case "caching", "shared":
 		c = reflect.ValueOf(e.cp).Elem().FieldByName("responseCache").Elem().Elem()
-	case "throttle":
+	case "throttle", "tshared":
 		c = reflect.ValueOf(e.tp).Elem().FieldByName("responseCache").Elem().Elem()
 	}
 	tr := c.FieldByName("currentCacheSize").Float() * mb
@@ -626,6 +665,73 @@ func (e *env) pluginOp(w []string) string {
 
 // exec runs one case; if the process could not be brought to quiescence (machine overloaded) the case is
 // run again from scratch, and a persistent failure is reported loudly instead of producing unreliable answers.
+// tsharedOp: one call of the single throttling plugin under one of several configurations.
+func (e *env) tsharedOp(w []string) string {
+	idx, ok0 := kvN(w[1:], "r")
+	m, ok1 := kvS(w[1:], "m")
+	u, ok2 := kvS(w[1:], "u")
+	if !ok0 || !ok1 || !ok2 || idx >= int64(len(e.trems)) {
+		return "bad-op"
+	}
+	cfg := &e.trems[idx]
+	if w[0] == "resp" {
+		id, ok1 := kvS(w[1:], "id")
+		st, ok2 := kvN(w[1:], "st")
+		body, ok3 := kvS(w[1:], "body")
+		hw, ok4 := proto.KV(w[1:], "h")
+		if !ok1 || !ok2 || !ok3 || !ok4 {
+			return "bad-op"
+		}
+		h, ok := parsePP(hw)
+		if !ok {
+			return "bad-op"
+		}
+		act, err := e.tp.OnResponse(lunarMessages.OnResponse{ID: id, Method: m, URL: u, Status: int(st), Body: body, Headers: h}, cfg)
+		e.quiesce()
+		if err != nil {
+			return "err:" + proto.Enc(err.Error())
+		}
+		if _, isNoop := act.(*actions.NoOpAction); !isNoop {
+			return fmt.Sprintf("other:%T", act)
+		}
+		return "noop"
+	}
+	act, err := e.tp.OnRequest(lunarMessages.OnRequest{ID: "q", Method: m, URL: u}, cfg)
+	if err != nil {
+		return "err:" + proto.Enc(err.Error())
+	}
+	switch a := act.(type) {
+	case *actions.NoOpAction:
+		e.cnt("tshared-noop")
+		return "noop"
+	case *actions.EarlyResponseAction:
+		e.cnt("tshared-replay")
+		status, body, headers, okView := spoeView(a)
+		if !okView {
+			return "early-without-spoe-variables"
+		}
+		names := make([]string, 0, len(headers))
+		for k := range headers {
+			names = append(names, k)
+		}
+		sort.Strings(names)
+		parts := make([]string, len(names))
+		for i, k := range names {
+			v := headers[k]
+			// the answering configuration's own header under a relative policy is a recomputed float: report it in ns
+			if k == cfg.RetryAfterHeader && cfg.RetryAfterType == sharedConfig.RetryAfterRelativeSeconds {
+				if f, err := strconv.ParseFloat(v, 64); err == nil && math.Abs(f) < 1e6 {
+					v = fmt.Sprintf("#%d", int64(math.Round(f*1e9)))
+				}
+			}
+			parts[i] = k + ":" + v
+		}
+		return fmt.Sprintf("early st=%d body=%s h=%s", status, proto.Enc(body), proto.Enc(strings.Join(parts, ",")))
+	default:
+		return fmt.Sprintf("other:%T", act)
+	}
+}
+
 // spoeView decodes what an early response hands to the proxy.
 func spoeView(a *actions.EarlyResponseAction) (status int, body string, headers map[string]string, ok bool) {
 	headers = map[string]string{}
@@ -719,6 +825,22 @@ func execOnce(c proto.Case, o *proto.Out, count bool) ([]string, bool) {
 				outs[i] = ans
 				continue
 			}
+		}
+		if e.mode == "tshared" && (w[0] == "resp" || w[0] == "req") {
+			outs[i] = e.tsharedOp(w)
+			key := ""
+			m, _ := proto.KV(w[1:], "m")
+			u, _ := proto.KV(w[1:], "u")
+			key = m + " " + u
+			switch {
+			case w[0] == "resp":
+				stored[key] = true
+			case strings.HasPrefix(outs[i], "early"):
+				hit = true
+			case outs[i] == "noop" && stored[key]:
+				missAfterStore = true
+			}
+			continue
 		}
 		switch {
 		case e.mode == "cache" && (w[0] == "set" || w[0] == "get" || w[0] == "has" || w[0] == "del"):
